@@ -11,8 +11,10 @@ D=$(mktemp -d /tmp/seedeval_XXXXXX)
 trap 'rm -rf "$D"' EXIT
 git -C /repo archive HEAD | tar -x -C "$D"
 cd "$D"
+# the demo runs from the same relative place it was written for (some derive the project root from their own path)
+mkdir -p "$D/_scratch"; cp "$DEMO" "$D/_scratch/"; DEMO_RUN="$D/_scratch/$(basename "$DEMO")"
 # demo on the clean tree
-PYTHONPATH="$D" env -u NSL_VERIF timeout 300 /venv/bin/python "$DEMO" > "$D/demo_clean.log" 2>&1; RC_CLEAN=$?
+PYTHONPATH="$D" env -u NSL_VERIF timeout 300 /venv/bin/python "$DEMO_RUN" > "$D/demo_clean.log" 2>&1; RC_CLEAN=$?
 # apply (ignoring generated parser tables)
 filterdiff_py='
 import sys,re
@@ -28,7 +30,8 @@ if ! git apply --whitespace=nowarn "$D/patch.diff" 2>"$D/apply.log"; then
 fi
 rm -rf .git
 TESTS=$(PYTHONPATH="$D" env -u NSL_VERIF /venv/bin/python -m pytest -q -p no:cacheprovider 2>&1 | tail -1)
-PYTHONPATH="$D" env -u NSL_VERIF timeout 300 /venv/bin/python "$DEMO" > "$D/demo_changed.log" 2>&1; RC_CHANGED=$?
+PYTHONPATH="$D" env -u NSL_VERIF timeout 300 /venv/bin/python "$DEMO_RUN" > "$D/demo_changed.log" 2>&1; RC_CHANGED=$?
+rm -rf "$D/_scratch"
 echo "tests with change: $TESTS"
 echo "demo clean rc=$RC_CLEAN, with change rc=$RC_CHANGED"
 case "$TESTS" in "82 passed"*) ;; *) echo "REJECTED: tests do not all pass"; exit 3;; esac
